@@ -2,6 +2,7 @@
   C09 — empty (zeroed) slots are never read or dropped; `*_init` pushes handle both kinds.
 -/
 import MRB.Seq.Run
+import MRB.Seq.Discipline
 
 namespace MRB.Props.C09
 open MRB
@@ -29,6 +30,31 @@ theorem C09_plain_store_faults_iff_empty (s : St) (i v : Nat) (ho : s.owned = tr
 /-- Releasing the buffer never passes an empty slot to a destructor. -/
 theorem C09_release_skips_empty (s : St) : 0 ∉ (releaseStorage s).drops.drop s.drops.length := by
   unfold releaseStorage; split <;> simp
+
+/-- **Empty slots are never read or dropped, whole histories.** From *any* freshly split buffer (zeroed, partly filled
+or full; any length, two or three stages), every contract-respecting history that follows the init discipline — the
+producer stores non-zero tokens through the `*_init` forms, worker and consumer edit items in place with non-zero
+values, the consumer takes items with `pop_move` / clone / peek, iterators are dropped at any point — records no
+undefined behaviour at all: no destructor on an empty slot, no empty slot read as an item, no window outside the
+storage. And every item in flight stays a non-zero token. -/
+theorem C09_no_zero_use (slots : List Nat) (hasW heap : Bool) (hlen : 1 ≤ slots.length) (ops : List Op)
+    (hal : AllowedRun (St.init slots hasW heap true) (Sp.init slots.length hasW) ops) (hd : DiscRun ops) :
+    (run (St.init slots hasW heap true) ops).1.fault = none ∧ NZ ((Sp.init slots.length hasW).run ops).1 :=
+  no_fault_run (rel_init slots hasW heap true hlen) (NZ.init _ _) rfl ops hal hd
+
+/-- The other documented use: a buffer built from existing data (every slot occupied) that is only ever stored into
+(plain or `*_init` stores of non-zero tokens, by any stage) and read by clone / peek — never `pop_move`d — stays fully
+occupied for ever, so the unconditional stores never meet an empty slot either. -/
+theorem C09_no_zero_use_full_buffer (slots : List Nat) (hasW heap : Bool) (hlen : 1 ≤ slots.length) (hocc : ∀ v ∈ slots, v ≠ 0)
+    (ops : List Op) (hal : AllowedRun (St.init slots hasW heap true) (Sp.init slots.length hasW) ops)
+    (hd : ∀ op ∈ ops, DiscFull op) :
+    (run (St.init slots hasW heap true) ops).1.fault = none ∧ AllOcc (run (St.init slots hasW heap true) ops).1 :=
+  full_run (rel_init slots hasW heap true hlen)
+    (by intro i hi; simp only [St.init] at hi ⊢; exact getD_ne_zero_of_mem slots i hi hocc) rfl ops hal hd
+
+/-- One step of it, from any reachable state: what the consumer takes is never an empty slot. -/
+theorem C09_taken_item_nonzero {s : St} {a : Sp} (h : Rel s a) (hz : NZ a) (hav : 1 ≤ a.avail .C) : a.valAt a.posC ≠ 0 :=
+  head_nz h hz hav
 
 /-- Tie to the source: the `*_init` forms test every slot separately, and the emptiness test looks at all bytes. -/
 theorem C09_source_init_shapes :
